@@ -210,6 +210,9 @@ func runC03(c *Ctx) {
 	}
 	// shared with C01: the threshold compared with is the one the caller configured (stored as given, written once)
 	checkThresholdAndQ(c, p)
+	// shared with C04/C09: the matches of a result were computed for this input - Match keeps nothing between calls that a
+	// later or overlapping call could write into (R04.1)
+	matchReadOnly(c, p, "R04.1")
 	fns := v2Funcs(p)
 	lits := structLits(fns, "/v2.Match")
 	nLicense, nCopyright := 0, 0
